@@ -728,6 +728,7 @@ class Learner2D(BaseLearner):
             return
         self.pending_points.discard(point)
         self._ip = None
+        self._ip_combined = None
         self._stack.pop(point, None)
 
     def tell_pending(self, point: tuple[float, float]) -> None:
@@ -808,6 +809,7 @@ class Learner2D(BaseLearner):
             self._stack = OrderedDict(zip(points[: self.stack_size], loss_improvements))
             for point in points[:n]:
                 self.pending_points.discard(point)
+            self._ip_combined = None
 
         return points[:n], loss_improvements[:n]
 
@@ -821,6 +823,7 @@ class Learner2D(BaseLearner):
 
     def remove_unfinished(self) -> None:
         self.pending_points = set()
+        self._ip_combined = None
         for p in self._bounds_points:
             if p not in self.data:
                 self._stack[p] = np.inf
